@@ -173,10 +173,10 @@ def c01step (st : DState) (op : String) (impl : String) : DState × String :=
             if !decide ir.WF then "bad:assumption-deleted-bitmap-out-of-range"
             else if permDocs ir.abs specNext then "ok"
             else "bad:root-differs-from-abstract-index expected " ++ showDocs (sortDocs specNext)
-      let st' := install { st with spec := specNext,
-                    usedIds := names ++ st.usedIds,
-                    inserted := insertedIds ops ++ st.inserted,
-                    taint := if twice then names ++ st.taint else st.taint } r'
+      let st1 : DState := { st with spec := specNext, usedIds := names ++ st.usedIds,
+                                    inserted := insertedIds ops ++ st.inserted,
+                                    taint := if twice then names ++ st.taint else st.taint }
+      let st' := install st1 r'
       (st', showRoot r' ++ sep ++ verdict ++ brs [
         (nrec > 0, "recompute"), (ndrop > 0, "segment-dropped"), (hasNew, "new-segment"), (!hasNew, "no-new-segment"),
         (seenE != st.root.epoch, "stale-root-seen"), (names.any st.usedIds.contains, "id-reused"),
@@ -215,7 +215,7 @@ def c01step (st : DState) (op : String) (impl : String) : DState × String :=
         (explained.isSome, "merge-explained"), (explained.isNone, "merge-adopted"),
         (newSids.isEmpty, "merge-without-new-segment")])
     | none => (st, "bad-op" ++ sep ++ "bad:unparsable-merge")
-  | ["read", k] =>
+  | "read" :: k :: _ =>
     match ((k.drop 2).toString).toNat? with
     | some k =>
       let model := showView st.root.count st.root.abs k
@@ -233,6 +233,7 @@ def c01step (st : DState) (op : String) (impl : String) : DState × String :=
         ((List.range k).any fun i => ((st.spec.filter (fun d => d.id == i + 1)).length ≥ 2), "id-with-several-live-docs")])
     | none => (st, "bad-op" ++ sep ++ "bad:unparsable-read")
   | ["end"] => (st, "closed" ++ sep ++ "ok")
+  | "crash" :: _ => (st, "-" ++ sep ++ "bad:writer-process-crashed " ++ impl)
   | kind :: _ => (st, "-" ++ sep ++ "bad:unexpected-" ++ kind)
   | [] => (st, "-" ++ sep ++ "na")
 
